@@ -168,9 +168,26 @@ def drops_written_with_a_minus_sign():
     return s, {}
 
 
+def mux_input_deep_below_its_source():
+    """the selected mux input sits two and three components below its source (fuse, diode, switch); the other input is a
+    0 V source declared first; rails on the way"""
+    s = System("sc12", C.Source("aux", vo=0.0), rail="VAUX")
+    s.add_source(C.Source("main", vo=12.0, rs=0.05), rail="VMAIN")
+    s.add_comp("VMAIN", comp=C.RLoss("fuse", rs=0.2), rail="VF")
+    s.add_comp("VF", comp=C.VLoss("diode", vdrop=0.4), rail="VD")
+    s.add_comp("VD", comp=C.PSwitch("sw", rs=0.05, ig=1e-5), rail="VSW")
+    s.add_comp(["VAUX", "VSW"], comp=C.PMux("mux", rs=[0.1, 0.15]), rail="SYS")
+    s.add_comp("SYS", comp=C.Converter("buck", vo=3.3, eff=0.9), rail="V33")
+    s.add_comp("V33", comp=C.PLoad("mcu", pwr=0.5))
+    s.add_comp("SYS", comp=C.ILoad("led", ii=0.02, loss=True))
+    s.add_comp("VD", comp=C.RLoad("bleed", rs=1000.0))
+    return s, {"energy": True}
+
+
 ALL = [dead_branch_added_last, mux_second_input_tables, starved_regulator_before_mux, signed_phase_current_behind_series,
        negative_rail_tables, mux_changes_source_between_phases, light_branch_next_to_heavy, loss_loads_on_rails,
-       linreg_in_dropout_band, siblings_before_an_unselected_mux_input, drops_written_with_a_minus_sign]
+       linreg_in_dropout_band, siblings_before_an_unselected_mux_input, drops_written_with_a_minus_sign,
+       mux_input_deep_below_its_source]
 
 
 # ---------------------------------------------------------------------------------------------
